@@ -11,15 +11,15 @@
     - dedupeInnersOuters deletes only shells and holes with exactly opposite edges (a cancelling pair);
     - the per-level assembly (dedupe + match + unmatched holes turned shells) conserves edges modulo such pairs;
     - kmpDeduplicate returns a subsequence of its input and is the identity when the chain never steps back.
-    Proved for a BOUNDED domain stated in the theorem (not the general claim): kmpDeduplicate conserves the
-    directed edges modulo cancellation for every chain over <= 5 pixel centres of length <= 9 in the class of
-    the property (each centre at most twice).  The general lemma [kmp_conserves_le2] is NOT proved.
+    - kmpDeduplicate, on the class of the property (no pixel centre at three positions of the chain, [le2]):
+      never fails and conserves the directed edges modulo cancellation of opposite pairs ([conserves]) —
+      [C18_kmp_conserves_le2], for every ring of any length (plus an independent bounded enumeration).
     Outside the class the statement is false: [C18_class_boundary_F5] (four visits).
     The nesting clause ("every hole lies inside or on its shell") has no theorem: search only. *)
 From Coq Require Import ZArith List Bool Permutation.
 From Texel Require Import Prelude.Base Index.Model Snap.Model Snap.ProofsBasics Snap.ProofsSplit
   Snap.ProofsSplitRefine Snap.ProofsSplitThms Snap.ProofsDedupeCancel Snap.ProofsLevel Snap.ProofsLevelThms
-  Snap.ProofsLevelEdges Snap.ProofsKmpSubseq Snap.ProofsKmpEnum Snap.ProofsKmpEdges.
+  Snap.ProofsLevelEdges Snap.ProofsKmpSubseq Snap.ProofsKmpEnum Snap.ProofsKmpEdges Snap.ProofsKmpLe2.
 Import ListNotations.
 Open Scope Z_scope.
 
@@ -65,7 +65,15 @@ Theorem C18_kmp_identity_NoDup : forall r, NoDup r -> kmpDeduplicate r = Ok r.
 Proof. exact kmp_id_NoDup. Qed.
 Print Assumptions C18_kmp_identity_NoDup.
 
-(** BOUNDED (the bound is part of the statement): every chain [w] over at most 5 pixel centres, of length at most
+(** the class of C18: no pixel centre occurs at three positions of the routed chain ([le2]).  On it spike removal
+    never fails and conserves the directed edges modulo cancelling pairs: for every e, the output has no more
+    copies of e than the input and the surplus of e over its reverse is unchanged.  Every ring, any length. *)
+Theorem C18_kmp_conserves_le2 : forall r, le2 r ->
+  exists r', kmpDeduplicate r = Ok r' /\ conserves (cedges r) (cedges r').
+Proof. exact kmp_conserves_le2. Qed.
+Print Assumptions C18_kmp_conserves_le2.
+
+(** BOUNDED cross-check by exhaustive evaluation (the bound is part of the statement): every chain [w] over at most 5 pixel centres, of length at most
     9, without equal neighbours, first <> last, each centre at most twice — the class of C18 — is reduced by
     kmpDeduplicate with directed edges conserved modulo cancelling pairs ([conserves]).  By exhaustive
     evaluation inside Coq, lifted with forallb_forall. *)
